@@ -15,6 +15,28 @@ CLAIMED = {
         'so counts after concrete call histories are not observed.',
    note='Trusted: clang 14 AST/CFG, the extractor, std containers per the C++ standard. Not decided: alignment of level indices after removeError in the middle of the list (a history argument).',
    ref='DESIGN.md section 4, C15'),
+
+ 'C10': dict(
+   technique='static analysis: per-return field-coverage via CFG dominance and branch facts over the doEquals chain; size-symmetry and direct-children rules',
+   text='For every doEquals in the Entity hierarchy and every CFG path to a result that can be true: every attribute field of the class was read on this side, '
+        'every direct base doEquals was consulted, getters called on the other object cover the same fields, every child collection has its size compared for equality, '
+        'children are matched against direct children only, UnitDefinition fields all compared (doubles through areNearlyEqual), null/cast results tested. '
+        'Necessary conditions of "sees every attribute" and of symmetry; reflexivity/transitivity on values are not executed.',
+   note='Trusted: clang AST/CFG; getter-covers-field is computed from getter bodies. Known finding: variable counts are not compared (pinned by Equality.parseMath).',
+   ref='DESIGN.md section 4, C10'),
+ 'C16': dict(
+   technique='static analysis: recogniser non-vacuity, grammar terminals read from the AST, exception-channel screening of std::sto*, use-site branch rules',
+   text='Decides on all paths of the recognisers/conversions: no acceptance through std::all_of over an empty string; sign/digit/point/e-marker sets and count bounds equal the CellML grammar; '
+        'every std::sto* call handles out_of_range and is screened by the recogniser of its kind here or in every caller; parser/validator use sites convert only on the accepting branch and add an issue on the rejecting one; '
+        'doubles are printed with digits10 precision by default. The accepted language is not enumerated by execution.',
+   note='Trusted: C++ standard exception specification of std::sto*; recogniser-accepted text is convertible. Restructuring the recognisers (e.g. to a regex) makes anchors vanish: exit 2, not a verdict.',
+   ref='DESIGN.md section 4, C16'),
+ 'C18': dict(
+   technique='static analysis: type-level counting argument on the memo key, null-state dataflow, visited-set rule on the recursive search',
+   text='The memo of AnalyserModel::areEquivalentVariables must be keyed injectively by both addresses (pair/tuple key or >=128 bits), decided from the field type and the dataflow of the key expression; '
+        'the utility null-tests its arguments; the recursive equivalence search carries, tests and extends a visited list before recursing. Whether a particular run collides is not observed.',
+   note='Trusted: clang types. The original defect (64-bit Cantor pairing) was replayed with controlled addresses and repaired (fix commits d93d680, fb127cf).',
+   ref='DESIGN.md section 4, C18'),
 }
 
 NOT_YET = {}
